@@ -89,6 +89,32 @@ theorem frames_within_mtu (mtu : Nat) (pkts : List Bytes) (sched : List Bool) :
   simp only [hdrLen] at *
   omega
 
+/-- the sequence number of a frame is its position in the stream; hence the 64-bit counter of the
+code (`e.seq++`, `lastFrame.seqNr+1`) cannot wrap unless one stream has 2^64 frames, and below
+that bound the natural-number arithmetic of the model is the code's `uint64` arithmetic -/
+theorem seq_is_position (mtu : Nat) (pkts : List Bytes) (sched : List Bool)
+    (hm : 57 ≤ mtu) (hM : mtu ≤ 65535) (k : Nat) (f : Frame)
+    (h : (encode mtu pkts sched)[k]? = some f) : f.seq = k := by
+  obtain ⟨tr, h1, h2, _, _, _⟩ := stream_trace mtu 0 pkts sched hm hM
+  rw [encode_eq, ← h2, List.getElem?_map] at h
+  cases hk : tr[k]? with
+  | none => rw [hk] at h; cases h
+  | some st =>
+    rw [hk] at h
+    simp only [Option.map_some, Option.some.injEq] at h
+    obtain ⟨hlt, hst⟩ := List.getElem?_eq_some_iff.1 hk
+    have := (trace_get mtu 0 tr 0 none h1 k hlt).1
+    rw [hst, h] at this
+    omega
+
+theorem seq_no_wrap (mtu : Nat) (pkts : List Bytes) (sched : List Bool)
+    (hm : 57 ≤ mtu) (hM : mtu ≤ 65535) (hlen : (encode mtu pkts sched).length < 2 ^ 64) :
+    ∀ f ∈ encode mtu pkts sched, f.seq + 1 < 2 ^ 64 := by
+  intro f hf
+  obtain ⟨k, hk, rfl⟩ := List.getElem_of_mem hf
+  have := seq_is_position mtu pkts sched hm hM k _ (List.getElem?_eq_getElem hk)
+  omega
+
 /-- the validity test is the one of the statement: IPv4 (≥ 20 bytes, total length = length) or
 IPv6 (≥ 40 bytes, payload length + 40 = length) -/
 theorem validPkt_iff (p : Bytes) :
